@@ -79,25 +79,30 @@ func (c *ThrottlingChecker) DoCheck(_ base.StatNode, batchCount uint32, threshol
 	// The interval between two requests (in nanoseconds).
 	intervalNs := int64(math.Ceil(float64(batchCount) / threshold * float64(c.statIntervalNs)))
 
+	util.VerifYield("tc.load")
 	loadedLastPassedTime := atomic.LoadInt64(&c.lastPassedTime)
 	// Expected pass time of this request.
 	expectedTime := loadedLastPassedTime + intervalNs
 	if expectedTime <= curNano {
+		util.VerifYield("tc.cas")
 		if swapped := atomic.CompareAndSwapInt64(&c.lastPassedTime, loadedLastPassedTime, curNano); swapped {
 			// nil means pass
 			return nil
 		}
 	}
 
+	util.VerifYield("tc.load2")
 	estimatedQueueingDuration := atomic.LoadInt64(&c.lastPassedTime) + intervalNs - curNano
 	if estimatedQueueingDuration > c.maxQueueingTimeNs {
 		return base.NewTokenResultBlockedWithCause(base.BlockTypeFlow, BlockMsgQueueing, rule, nil)
 	}
 
+	util.VerifYield("tc.add")
 	oldTime := atomic.AddInt64(&c.lastPassedTime, intervalNs)
 	estimatedQueueingDuration = oldTime - curNano
 	if estimatedQueueingDuration > c.maxQueueingTimeNs {
 		// Subtract the interval.
+		util.VerifYield("tc.rollback")
 		atomic.AddInt64(&c.lastPassedTime, -intervalNs)
 		return base.NewTokenResultBlockedWithCause(base.BlockTypeFlow, BlockMsgQueueing, rule, nil)
 	}
